@@ -20,6 +20,7 @@ order-preserving adaptors, the table's tags are `extend`ed onto the clone's tags
 line += row index + 2, a scenario without examples is returned as is, and expand_examples rebuilds both scenario
 lists in place from their own taken value.
 Not decided: results for particular characters/inputs, distinctness of positions as numbers.
+Added after the second seeded round: (R4, extended) the un-expanded scenario is returned exactly when scenario.examples is empty (path table of expand_scenario).
 """
 DECLINED = ["behaviour on particular strings (unicode, `$`, regex metacharacters) beyond the replacer kind", "numeric distinctness of positions"]
 ASSUMPTIONS = ["regex::Regex::replace_all with a closure replacer inserts the returned text verbatim"]
